@@ -726,6 +726,10 @@ class HttpRequestParser(HttpParser[RawRequestMessage]):
         if match is None:
             raise BadStatusLine(line)
         version_o = HttpVersion(int(match.group(1)), int(match.group(2)))
+        if version_o.major != 1:
+            # Only HTTP/1.x messages are understood; another major version
+            # must neither be parsed as HTTP/1.x nor echoed in the response.
+            raise BadStatusLine(line)
 
         # request-target
         if _TARGET_FORBIDDEN_CTL_RE.search(path):
